@@ -11,6 +11,7 @@ wire format
 -/
 import Lean.Data.Json
 import Jap.Core.Subcmd
+import Jap.Lemmas.SubcmdSources
 
 open Lean Jap.Subcmd
 
@@ -207,6 +208,30 @@ def step (j : Json) : Except String Json := do
     let p ← pOfJson (j.getObjValD "p")
     let t ← getCfg j "tree"
     pure (resCfg (loadCfgArg p t))
+  | "losses" =>
+    -- the predicates of the session-2 theorems on a source `tree` for the parser `p`: which sections `loadCfgArg` loses
+    -- (C17_early_selection_exact), whether the source is verbatim at every depth (C17_quiet_source_verbatim), and the loader itself
+    let p ← pOfJson (j.getObjValD "p")
+    let t ← getCfg j "tree"
+    let ns := names p.choices
+    let lost := match p.sub with
+      | some h => ns.filter (fun k => isSecAt k t && loses h ns t k)
+      | none => []
+    let lostSingle := match p.sub with
+      | some h => ns.filter (fun k => isSecAt k t && losesSingle h ns t k)
+      | none => []
+    pure (Json.mkObj [("lost", .arr (lost.map Json.str).toArray), ("lostSingle", .arr (lostSingle.map Json.str).toArray),
+      ("quietDeep", .bool (quietDeep p t)), ("loaded", resCfg (loadCfgArg p t))])
+  | "fold" =>
+    let items ← match j.getObjVal? "items" with
+      | .ok (.arr xs) => xs.toList.mapM fun x => match x with
+        | .arr #[.bool b, t] => do
+          let t' ← cfgOfJson t
+          pure (b, t')
+        | _ => .error "bad item"
+      | _ => pure []
+    let c ← getCfg j "cfg"
+    pure (Json.mkObj [("ok", cfgToJson (foldItems items c))])
   | "defaultcfg" =>
     let p ← pOfJson (j.getObjValD "p")
     let t ← getCfg j "tree"
